@@ -97,6 +97,9 @@ func (fv *FuncVC) native(v ssa.Value, f *ssa.Function, cc *ssa.CallCommon, args 
 		var g *ssa.Global
 		if u, ok := cc.Args[0].(*ssa.UnOp); ok {
 			g, _ = u.X.(*ssa.Global)
+		} else if gg, ok := cc.Args[0].(*ssa.Global); ok {
+			// a pool declared as a value (`var p = sync.Pool{...}`): the receiver is the global's address
+			g = gg
 		}
 		if g == nil {
 			return false
